@@ -27,6 +27,7 @@ RULE = (
     ">= 1 file-object value and >= 3 value types."
     ' Key tables filled to their last byte ending in a 27..30-byte entry; files opened through a minimal file object; top-level entries that outlive the HyperVFile object.'
 )
+RULE += ' Round 10: the dumped dictionary is wrecked by the caller and the file dumped again; values directly below the root.'
 ASSUMPTIONS = [
     "checksums are written as zero: their algorithm is not public and the reader does not verify them",
     "root-level entries are mostly nodes; one tree in six also has values at the top level",
